@@ -328,7 +328,7 @@ def run_check(check, tier, seed, replay=None):
     if rc == 0:
         problems = []
         if harness_errors:
-            problems.append(f'harness errors ({len(harness_errors)}): {harness_errors[0][:300]}')
+            problems.append(f'harness errors ({len(harness_errors)}): {harness_errors[0][-700:]}')
         if cross['mismatch']:
             problems.append(f'true-CLI cross-check disagreed on {cross["mismatch"]} runs')
         if inconc:
